@@ -82,9 +82,11 @@ func (q *Queue) Pop() any {
 }
 
 func queueLoad(p *unsafe.Pointer) (n *node) {
+	verifYield(1, unsafe.Pointer(p))
 	return (*node)(atomic.LoadPointer(p))
 }
 
 func queueCas(p *unsafe.Pointer, old, new *node) (ok bool) {
+	verifYield(2, unsafe.Pointer(p))
 	return atomic.CompareAndSwapPointer(p, unsafe.Pointer(old), unsafe.Pointer(new))
 }
